@@ -20,6 +20,13 @@ Invariants after every step (exactly the three sentences of the statement):
     input or is the system's own name, and both reports agree; at the end of the history the CSV
     reports written by generate_report() carry the same pairs as mapping().
 
+Round 5: file operations run under the relative path of a real spec (clean_file in place, or the spec's content
+provider writing it under HostContext - the two callers that derive the IPv4 obfuscator's keep-the-column-width
+mode from the file name), lines may be table rows (wide column gaps, read back whatever their length has become),
+one site in three has its own network inside the substitute range, and host names also occur spelled in other
+letter cases (each spelling that is replaced must be reported; spellings of one name are one host for
+injectivity).  Sub-check `specfiles` is a history made of such named table specs only.
+
 Sub-check `compete` runs the same kind of history with keywords that are *parts of* (or whole) host
 names / addresses the lines carry, i.e. with obfuscators that compete for the same text.  Which of
 them wins such a token is not stated, so the report sentences are demanded in the form that does not
@@ -57,7 +64,16 @@ RULE = ("stateful: one Cleaner (IPv4, hostname, MAC on; 0-3 keywords) per case, 
         "into the domain, the whole name, a piece of an address, the whole address); oracle = consistency, "
         "injectivity and the report sentences in their order-agnostic form (listed originals occurred literally in "
         "an input; the text shown for an original derives from it by listed pairs that are part of it). "
-        "Non-trivial there: some line carries an IP / host name / MAC that has a configured keyword inside.")
+        "Non-trivial there: some line carries an IP / host name / MAC that has a configured keyword inside. "
+        "Round 5 dimensions (history and specfiles): operation kinds file and write (DatasourceProvider.write under "
+        "HostContext) run under one of 8 relative paths of real specs (netstat_-neopa, ss_-tupna, ip_addr, "
+        "ip_route_show_table_all, netstat_-i, hostname_-I, etc/hosts, ifcfg-eth0) or an anonymous name; lines "
+        "are free text or table rows (every token followed by a gap of 8 blanks per token; always rows under a name "
+        "ending in netstat_-neopa, where width mode is documented); one site in three (specfiles: in two) has most "
+        "of its addresses in 10.230.230.0/24, numbered from .1 upwards; host pools also hold other letter-case "
+        "spellings of an earlier host (LABEL / Label / lAbEl / laBEL of the first labels, ALL, DOMAIN, Domain). "
+        "Sub-check specfiles: 1-8 (thorough 1-16) operations, 3 in 4 a named table spec (connection table local+peer "
+        "[+host/MAC], one-column list, mixed rows) cleaned by clean_file or the provider, the rest clean_content calls.")
 ASSUMPTIONS = [
     "PYTHONHASHSEED is pinned by the runner; in sub-check history tokens of different classes never overlap "
     "textually, so the order in which the obfuscators run cannot matter there; sub-check compete makes keywords "
@@ -73,6 +89,12 @@ ASSUMPTIONS = [
     "need not be reported",
     "keywords take part in the report invariant only (the statement's consistency/injectivity "
     "sentences name IP addresses, host names and MAC addresses)",
+    "every spelling (letter case) of a host name that is replaced is an original of its own for consistency and for "
+    "the report (it must be listed, literally, with the substitute the output shows - as the unchanged tree does); "
+    "for injectivity the spellings of one name count as one host (the statement speaks of different host names; "
+    "whether DB1.corp.test and db1.corp.test may share a substitute is left open)",
+    "width mode (documented for file names ending in netstat_-neopa) only moves blanks behind an address: on a table "
+    "row (>= 8 blanks per token behind every token, growth <= 7 per address) the tokens are read back as everywhere else",
 ]
 EXCLUDED = [
     "system short names that are substrings of text an obfuscator emits or of another class's "
@@ -80,12 +102,24 @@ EXCLUDED = [
     "[0-9a-f-] names): the unconditional line.replace(short, ...) rewrites the cleaner's own "
     "substitutes / MAC digits (DESIGN C09 X; generator appends 'z' to such a name)",
     "tokens glued to characters of their own syntax (IP next to a word character or '.digit', host "
-    "name next to [A-Za-z0-9_.-], MAC next to hex/:/-), upper-case host names, bare domain, "
-    "hosts outside the system's domain, IPv4 with leading zeros / first octet 0 (as C08 X)",
+    "name next to [A-Za-z0-9_.-], MAC next to hex/:/-), bare domain, "
+    "hosts outside the system's domain, IPv4 with leading zeros / first octet 0 (as C08 X); a host spelling whose "
+    "domain part is not in the system's own letter case (not recognised, left as it is) is only generated when the "
+    "system's short name is no substring of it",
     "host labels that start with a digit or '-' or are long enough to contain a MAC (competing "
     "obfuscators are C10's subject)",
-    "width=True (netstat column mode of the IPv4 obfuscator rewrites the blanks after a token, so "
-    "occurrences cannot be read back; same _ip2db underneath) and IPv6 (switched off as in DESIGN G)",
+    "width mode on lines that are not table rows (it deletes up to 7 characters behind the first blank after an "
+    "address, whatever they are: not C09's subject) - a name ending in netstat_-neopa always gets rows; an address "
+    "at the very end of a row without gap (IndexError in the width path); IPv6 (switched off as in DESIGN G)",
+    "KNOWN FINDING C09-width-chained-replace (found in round 5): under a file name ending in netstat_-neopa "
+    "IPv4.parse_line(width=True) still substitutes by chained line.replace, longest address first: a row on which "
+    "an original is textually part of the substitute written for an address handled before it (site uses "
+    "10.230.230.0/24: '192.168.100.17:22   10.230.230.1:51234' -> both shown as 10.230.230.3 while the other rows "
+    "and the mapping show 192.168.100.17 as 10.230.230.1) or part of the ignored 127.0.0.1 breaks consistency, "
+    "injectivity and the report.  Exactly these rows (predicate width_hazard, evaluated with the addresses of the "
+    "row and the listed substitutes) are skipped, for that file name only; label excluded:netstat-row-...; the case "
+    "flag allow_width_hazard switches the skip off (pinned reproducer in REGRESSIONS, known finding "
+    "C09-width-chained-replace)",
     "redaction patterns / allow-lists (lines would disappear; not part of C09)",
     "compete: keywords that are substrings of a text the cleaner itself emits in the history (host<N>.example.com, "
     "the hash label, 10.230.230.<N>, keyword<N>, the MAC substitutes): the keyword obfuscator rewrites the "
@@ -122,13 +156,29 @@ FILLERS = ["", "", " ", " ", "  ", " GHK ", "LMNOP", " HOP IJ=", " (MN) ", "\tKL
            " NO. ", ", ", " => ", " <P> ", " J|K ", "# ", " %$&*+!?~{} ", " GH: ", " . ", " LINK/ "]
 FILLER_OK = re.compile(r"\A[G-P \t,;()\[\]='\"/<>|@#$%&*+!?~{}.:]*\Z")
 WORDISH = re.compile(r"[A-Za-z0-9_.:-]")
-TOKGROUP = r"([0-9a-zA-FQ-Z.:_-]*?)"     # everything an original or a substitute can consist of
+TOKGROUP = r"([0-9a-zA-Z.:_-]*?)"     # everything an original or a substitute can consist of (= WORDISH: two
+#                                         groups are always separated by a character outside this class, see _join)
 # competing histories (keywords that are parts of host names / addresses): a keyword consists of token
 # characters only, so with delimiters that carry none of them a keyword can only ever match *inside* a
 # token (as it stands when the keyword obfuscator gets the line), never across a token boundary
 _KWCHARS = re.compile(r"[a-z0-9A-F_.:-]")
 LD_C = dict((c, [d for d in v if not _KWCHARS.search(d)]) for c, v in LD.items())
 RD_C = dict((c, [d for d in v if not _KWCHARS.search(d)]) for c, v in RD.items())
+# table rows (op["rows"]): every token (+ its right delimiter, which then carries no blank: ':80', '/24', ')' ...) is
+# followed by a column gap of 8 blanks per token of the line.  The IPv4 obfuscator's documented "keep the column
+# width" mode (width=True, chosen by the callers for file names ending in netstat_-neopa) moves the first blank
+# run behind an address by the difference in length (at most 7 per address), so on such a row it only ever touches
+# a gap; the template reads a gap back as ' +'.
+RD_ROW = dict((c, [d for d in v if " " not in d]) for c, v in RD.items())
+ROW_GAP = 8
+# relative paths under which real specs are collected (insights/specs/default.py: simple_command / simple_file /
+# glob_file names as they appear in the archive); the cleaner is handed nothing but this name and the lines
+SPEC_NAMES = [
+    "insights_commands/netstat_-neopa", "insights_commands/ss_-tupna", "insights_commands/ip_addr",
+    "insights_commands/ip_route_show_table_all", "insights_commands/netstat_-i", "insights_commands/hostname_-I",
+    "etc/hosts", "etc/sysconfig/network-scripts/ifcfg-eth0",
+]
+WIDTH_SUFFIX = "netstat_-neopa"     # documented: clean_file / ContentProvider switch width mode on for these names
 
 
 # ---- rendering a line and the template that reads it back ----------------------------------------
@@ -140,12 +190,13 @@ def _join(text, piece):
     return text + piece, piece
 
 
-def render_line(line, pools, compete=False):
+def render_line(line, pools, compete=False, rows=False):
     """-> (text, compiled template, [(class, original), ...] in left-to-right order)"""
     text = ""
     pat = ""
     occ = []
-    lds, rds = (LD_C, RD_C) if compete else (LD, RD)
+    lds, rds = (LD_C, RD_C) if compete else (LD, RD_ROW if rows else RD)
+    gap = " " * (ROW_GAP * len(line["toks"])) if rows else ""
     text, lit = _join(text, line["pre"])
     pat += re.escape(lit)
     for cls, idx, li, ri, fill in line["toks"]:
@@ -164,9 +215,21 @@ def render_line(line, pools, compete=False):
         occ.append((cls, tok))
         text += rd
         pat += re.escape(rd)
+        if rows:
+            text += gap
+            pat += " +"
         text, lit = _join(text, fill)
         pat += re.escape(lit)
     return text, re.compile(pat, re.S), occ
+
+
+def op_target(op, step):
+    """-> (relative path the operation is cleaned under or None, True when the callers are documented to switch
+    the IPv4 obfuscator's keep-the-column-width mode on for it)"""
+    if op["op"] not in ("file", "write"):
+        return None, False
+    rel = op.get("name") or "spec_%d" % step
+    return rel, rel.endswith(WIDTH_SUFFIX)
 
 
 def _validate(case):
@@ -178,8 +241,13 @@ def _validate(case):
     assert case.get("allow_unsafe_short") or not unsafe_short(short), short
     dom = fq[len(short) + 1:]
     for h in pools["host"]:
-        assert h in (short, fq) or (dom and h.endswith("." + dom) and re.match(
-            r"\A[a-z0-9_][a-z0-9_-]*(\.[a-z_0-9][a-z0-9_-]*)*\Z", h)), h
+        # other hosts of the system's domain, in any letter case (a spelling whose domain part is not in the
+        # system's own spelling is not recognised by the obfuscator and stays as it is - then the unconditional
+        # replacement of the short name must find nothing in it)
+        assert h in (short, fq) or (dom and h.lower().endswith("." + dom) and re.match(
+            r"\A[a-z0-9_][a-z0-9_-]*(\.[a-z_0-9][a-z0-9_-]*)*\Z", h.lower())), h
+        assert h in (short, fq) or h.endswith("." + dom) or short not in h, h
+        assert case.get("compete") or not any(k in h for k in pools["kw"]), h
     for ip in pools["ip"]:
         o = ip.split(".")
         assert len(o) == 4 and all(str(int(x)) == x and 0 <= int(x) <= 255 for x in o) and int(o[0]) > 0, ip
@@ -191,8 +259,13 @@ def _validate(case):
         else:
             assert re.match(r"\A[Q-Z]{4}\Z", k), k
     assert len(set(pools["kw"])) == len(pools["kw"])
-    for op in case["ops"]:
+    for step, op in enumerate(case["ops"]):
         assert not (case.get("compete") and op["no_obf"]), op["no_obf"]
+        assert op["op"] in ("list", "str", "file", "write"), op["op"]
+        assert re.match(r"\A[A-Za-z0-9_.-]+(/[A-Za-z0-9_.-]+)*\Z", op.get("name") or "x"), op.get("name")
+        # in width mode the blanks behind an address are moved: only table rows can be read back
+        assert op.get("rows") or not op_target(op, step)[1], op
+        assert not (op.get("rows") and case.get("compete")), op
         for ln in op["lines"]:
             assert FILLER_OK.match(ln["pre"]) and all(FILLER_OK.match(t[4]) for t in ln["toks"]), ln
             assert all(t[0] in CLASSES and pools[t[0]] for t in ln["toks"]), ln
@@ -286,40 +359,57 @@ def check_history(case):
 
         for step, op in enumerate(case["ops"]):
             exempt = set(c for c in CLASSES if OBF_NAME[c] in op["no_obf"])
-            rendered = [render_line(ln, pools, compete) for ln in op["lines"]]
+            rows = bool(op.get("rows"))
+            rel, wide = op_target(op, step)
+            rendered = [render_line(ln, pools, compete, rows) for ln in op["lines"]]
             texts = [r[0] for r in rendered]
             kind = op["op"]
             labels.add("op=" + kind)
             if exempt:
                 labels.add("exempt-spec")
-            kw = {"no_obfuscate": list(op["no_obf"])} if op["no_obf"] else {}
+            if rows:
+                labels.add("table-rows")
+            if op.get("name"):
+                labels.add("name=" + rel.split("/")[-1])
             if kind == "str":
                 rendered, texts = rendered[:1], texts[:1]
-                out = cleaner.clean_content(texts[0], **kw)
-                if not isinstance(out, str):
-                    raise Violation("clean_content(str) did not return a string", step=step, got=repr(out))
-                outs = [out]
-            elif kind == "list":
-                outs = cleaner.clean_content(list(texts), **kw)
-            else:
-                path = os.path.join(tmp, "spec_%d" % step)
-                with open(path, "w") as fh:
-                    fh.write("".join(t + "\n" for t in texts))
-                cleaner.clean_file(path, **kw)
-                with open(path) as fh:
-                    outs = fh.read().split("\n")[:-1]
-                os.remove(path)
+            raised = None
+            try:
+                outs = _run_op(cleaner, tmp, kind, rel, texts, op["no_obf"], step)
+            except Violation:
+                raise
+            except Exception as exc:  # noqa
+                if not wide:
+                    raise
+                raised, outs = exc, [None] * len(texts)     # judged below: only the excluded class may do that
             if not isinstance(outs, list) or len(outs) != len(texts):
                 raise Violation("cleaning changed the number of lines although nothing is redacted",
                                 step=step, input=texts, output=outs)
             inputs.extend(texts)
+            hazard = [False] * len(texts)
+            if wide and "ip" not in exempt:
+                labels.add("width-mode-name")
+                if not case.get("allow_width_hazard"):
+                    listed_ip = dict((e["original"], e["obfuscated"]) for e in cleaner.obfuscate["ip"].mapping())
+                    hazard = [width_hazard(r[2], listed_ip) for r in rendered]
+            if raised is not None:
+                if not any(hazard):
+                    raise raised
+                hazard = [True] * len(texts)      # the width path gave up on such a row: nothing to read back
 
             for lno, ((text, tmpl, occ), out) in enumerate(zip(rendered, outs)):
+                if hazard[lno]:
+                    # EXCLUDED (candidate known finding): chained str.replace in the width mode of IPv4.parse_line
+                    labels.add("excluded:netstat-row-with-original-inside-a-substitute-written-before")
+                    for cls, orig in occ:
+                        occurred[cls].add(orig)
+                        occurred[cls].add(canon(cls, orig))
+                    continue
                 m = tmpl.fullmatch(out)
                 if m is None:
                     raise Violation("output line no longer has the input's filler around its tokens "
                                     "(a replacement spilled over a token boundary)",
-                                    step=step, line=lno, input=text, output=out)
+                                    step=step, line=lno, op=kind, name=rel, input=text, output=out)
                 per_class = {}
                 for (cls, orig), repl in zip(occ, m.groups()):
                     occurred[cls].add(orig)
@@ -354,7 +444,8 @@ def check_history(case):
                         where[cls][orig] = (step, lno)
                     # 2. injectivity (IPv4, hosts), between originals that were really replaced
                     if cls in owner and repl != orig:
-                        c0 = canon(cls, orig)
+                        # (spellings of one host name in different letter cases are not "different host names")
+                        c0 = canon(cls, orig).lower() if cls == "host" else orig
                         other = owner[cls].setdefault(repl, c0)
                         if other != c0:
                             raise Violation(
@@ -382,6 +473,13 @@ def check_history(case):
                 labels.add("%s-original-equals-issued-substitute" % cls)
             if any(r == o for o, r in seen[cls].items()):
                 labels.add("%s-left-unchanged" % cls)
+        replaced_hosts = [canon("host", o) for o, r in seen["host"].items() if r != o]
+        if any(o != o.lower() for o in replaced_hosts):
+            labels.add("host-spelled-with-capitals-replaced")
+        if len(set(o.lower() for o in replaced_hosts)) < len(set(replaced_hosts)):
+            labels.add("two-letter-case-spellings-of-one-host-replaced")
+        if any(r == o and o != o.lower() for o, r in seen["host"].items()):
+            labels.add("host-spelling-not-recognised-left-unchanged")
         if fqdn.endswith(".example.com"):
             labels.add("domain=example.com")
         if "." not in fqdn:
@@ -396,6 +494,61 @@ def check_history(case):
         return {"nontrivial": bool(recurs and shared_line), "labels": sorted(labels)}
     finally:
         shutil.rmtree(tmp, ignore_errors=True)
+
+
+def _run_op(cleaner, tmp, kind, rel, texts, no_obf, step):
+    """one cleaning operation of the history -> list of output lines"""
+    kw = {"no_obfuscate": list(no_obf)} if no_obf else {}
+    if kind == "str":
+        out = cleaner.clean_content(texts[0], **kw)
+        if not isinstance(out, str):
+            raise Violation("clean_content(str) did not return a string", step=step, got=repr(out))
+        return [out]
+    if kind == "list":
+        return cleaner.clean_content(list(texts), **kw)
+    if kind == "file":
+        # the archive's copy of a spec, cleaned in place under the spec's own file name
+        path = os.path.join(tmp, "in", rel)
+        if not os.path.isdir(os.path.dirname(path)):
+            os.makedirs(os.path.dirname(path))
+        with open(path, "w") as fh:
+            fh.write("".join(t + "\n" for t in texts))
+        try:
+            cleaner.clean_file(path, **kw)
+            with open(path) as fh:
+                return fh.read().split("\n")[:-1]
+        finally:
+            os.remove(path)
+    # a spec written into the archive by its content provider during collection
+    from insights.core.context import HostContext
+    from insights.core.spec_factory import DatasourceProvider
+    prov = DatasourceProvider(list(texts), relative_path=rel, root=os.path.join(tmp, "in"), ctx=HostContext(),
+                              cleaner=cleaner, no_obfuscate=list(no_obf))
+    path = os.path.join(tmp, "out", rel)
+    try:
+        prov.write(path)
+        with open(path) as fh:
+            return fh.read().split("\n")
+    finally:
+        if os.path.exists(path):
+            os.remove(path)
+
+
+def width_hazard(occ, listed_ip):
+    """True for a row that belongs to the excluded class of the width mode (file names ending in netstat_-neopa):
+    IPv4.parse_line(width=True) substitutes address by address with str.replace over the whole line, longest
+    address first (equal lengths from left to right), so an original that is textually part of what stands on the
+    line by the time its turn comes - the substitute written for an address handled before it, or the ignored
+    127.0.0.1 - is rewritten there as well"""
+    ips = [o for c, o in occ if c == "ip"]
+    order = sorted((o for o in ips if o != "127.0.0.1"), key=len, reverse=True)      # stable, like the obfuscator
+    for j, b in enumerate(order):
+        if listed_ip.get(b, b) == b:
+            continue            # not replaced (yet), or replaced by itself: its turn changes nothing
+        # (a == b: the address stands twice on the row and is a proper part of its own substitute)
+        if any(b in listed_ip.get(a, "") for a in order[:j]) or ("127.0.0.1" in ips and b in "127.0.0.1"):
+            return True
+    return False
 
 
 def _line_labels(occ, exempt, labels):
@@ -545,8 +698,35 @@ def _mac_subst(mac):
     return out.upper() if mac.isupper() else out
 
 
+def _spelling(draw, name, domain, short):
+    """the same host name in another letter case (DNS names are case-insensitive, tools print them as they were
+    typed / as NetBIOS has them); None when the name has no letters to change"""
+    lab = name[:-(len(domain) + 1)]
+    how = draw(st.sampled_from(["LABEL", "LABEL", "Label", "lAbEl", "laBEL", "ALL", "DOMAIN", "Domain"]))
+    if how == "LABEL":
+        cand = lab.upper() + "." + domain
+    elif how == "Label":
+        cand = lab[:1].upper() + lab[1:].lower() + "." + domain
+    elif how == "lAbEl":
+        cand = "".join(c.upper() if i % 2 else c.lower() for i, c in enumerate(lab)) + "." + domain
+    elif how == "laBEL":
+        cut = draw(st.integers(0, max(len(lab) - 1, 0)))
+        cand = lab[:cut].lower() + lab[cut:].upper() + "." + domain
+    elif how == "ALL":
+        cand = name.upper()
+    elif how == "DOMAIN":
+        cand = lab + "." + domain.upper()
+    else:
+        cand = lab + "." + domain[:1].upper() + domain[1:]
+    if not cand.endswith("." + domain) and short in cand:
+        # a spelling of the domain that the obfuscator does not recognise stays in the line, where the
+        # unconditional replacement of the short name must not find anything (EXCLUDED: short-name substrings)
+        cand = lab.upper() + "." + domain
+    return None if cand == name else cand
+
+
 @st.composite
-def _pools(draw):
+def _pools(draw, spellings=True, site=3):
     # system name
     short = draw(_label)
     nodomain = draw(st.integers(0, 14)) == 0
@@ -559,9 +739,14 @@ def _pools(draw):
     if not nodomain:
         for _ in range(draw(st.integers(1, 6))):
             how = draw(st.sampled_from(["fresh", "fresh", "prefix", "suffix", "sub", "super", "issued"] + (
-                ["issued", "issued"] if domain == "example.com" else [])))
+                ["issued", "issued"] if domain == "example.com" else []) + (["case", "case"] if spellings else [])))
             base = hosts[draw(st.integers(0, len(hosts) - 1))]
-            blabel = base[:-(len(domain) + 1)] if base.endswith("." + domain) else base
+            blabel = base[:-(len(domain) + 1)] if base.lower().endswith("." + domain) else base
+            if how == "case":
+                other = _spelling(draw, blabel + "." + domain if base == short else base, domain, short)
+                if other is not None and other not in hosts:
+                    hosts.append(other)
+                    continue
             if how == "prefix":
                 name = (draw(_label) + blabel)[-12:]
                 if not re.match(r"[a-z_]", name):
@@ -582,10 +767,15 @@ def _pools(draw):
             hosts.append(name + "." + domain)
     # IPv4
     ips = []
+    # one site in three (sub-check specfiles: in two) has its own network in 10.230.230.0/24 - an ordinary private network that happens to be the
+    # range the substitutes are taken from: most of its addresses are textually equal to (or part of) substitutes
+    site_in_range = draw(st.integers(0, site - 1)) == 0
     # usually 2-8 originals; one history in four has a big pool (an obfuscator that has issued more
     # than ten substitutes is a different regime: two-digit counters, string vs numeric ordering)
     for _ in range(draw(st.one_of(st.integers(2, 8), st.integers(2, 8), st.integers(2, 8), st.integers(11, 16)))):
         how = draw(st.sampled_from(["fresh", "fresh", "fresh", "extend", "prepend", "range", "range", "loop"]))
+        if site_in_range and draw(st.integers(0, 3)) > 0:
+            how = "site"
         ip = None
         if how in ("extend", "prepend") and ips:
             o = ips[draw(st.integers(0, len(ips) - 1))].split(".")
@@ -596,6 +786,10 @@ def _pools(draw):
                 ip = ".".join([d + o[0]] + o[1:])
         elif how == "range":
             ip = "10.230.230.%d" % draw(st.sampled_from([1, 1, 2, 2, 3, 4, 5, 10, 11, 12, 20, 100]))
+        elif how == "site":
+            # (hosts of a small network are mostly numbered from .1 upwards)
+            ip = "10.230.230.%d" % draw(st.one_of(st.just(1 + sum(1 for x in ips if x.startswith("10.230.230."))),
+                                                  st.integers(1, 8), st.integers(1, 16)))
         elif how == "loop":
             ip = "127.0.0.1"
         if ip is None:
@@ -623,6 +817,7 @@ def _pools(draw):
         macs.append(mac)
     kws = draw(st.one_of(st.just([]), st.lists(st.text("QRSTUVWXYZ", min_size=4, max_size=4),
                                                 min_size=1, max_size=3, unique=True)))
+    kws = [k for k in kws if not any(k in h for h in hosts)]      # (a host name spelled in capitals)
     return {"fqdn": fqdn, "renamed": renamed, "pools": {"ip": ips, "host": hosts, "mac": macs, "kw": kws}}
 
 
@@ -644,7 +839,7 @@ def _history(draw, max_ops):
                         st.just("mac"))
     ops = []
     for _ in range(draw(st.one_of(st.integers(1, max_ops), st.integers(4, max_ops)))):
-        kind = draw(st.sampled_from(["list", "list", "str", "file"]))
+        kind = draw(st.sampled_from(["list", "list", "list", "str", "str", "file", "file", "write"]))
         nlines = 1 if kind == "str" else draw(st.integers(1, 4))
         no_obf = draw(st.one_of(st.just([]), st.just([]), st.just([]), st.just([]), st.lists(
             st.sampled_from(["ip", "hostname", "mac", "keyword"]), min_size=1, max_size=2, unique=True)))
@@ -654,9 +849,22 @@ def _history(draw, max_ops):
             cls = draw(st.sampled_from(["ip", "ip", "host", "mac"]))
             start = draw(st.integers(0, 15))
             lines = [{"pre": "", "toks": [[cls, start + 4 * r + c, 0, 0, " "] for c in range(4)]} for r in range(4)]
-        ops.append({"op": kind, "no_obf": no_obf, "lines": lines})
+        op = {"op": kind, "no_obf": no_obf, "lines": lines}
+        if kind in ("file", "write"):
+            _name_op(draw, op)
+        ops.append(op)
     case["ops"] = ops
     return case
+
+
+def _name_op(draw, op):
+    """a file / provider operation runs under the relative path of a real spec (mostly); the layout of its lines
+    is a table (columns separated by wide gaps) or free text - always a table where width mode is documented"""
+    name = draw(st.one_of(st.none(), st.sampled_from(SPEC_NAMES), st.sampled_from(SPEC_NAMES)))
+    if name is not None:
+        op["name"] = name
+    if op_target(op, 0)[1] or draw(st.integers(0, 3)) == 0:
+        op["rows"] = True
 
 
 def strat_history(tier):
@@ -690,7 +898,7 @@ def _derived_kw(draw, fqdn, pools, used):
 
 @st.composite
 def _compete_history(draw, max_ops):
-    case = draw(_pools())
+    case = draw(_pools(spellings=False))
     pools = case["pools"]
     weights = ["ip"] * 2 + ["host"] * 5 + ["mac"] * 2 + ["kw"] * 2
     classes = st.one_of(st.sampled_from(weights), st.sampled_from(weights), st.just("host"))
@@ -717,6 +925,58 @@ def _compete_history(draw, max_ops):
     return case
 
 
+@st.composite
+def _spec_history(draw, max_ops):
+    """one collection run as the archive sees it: spec after spec is cleaned under its own relative path (in place
+    by clean_file, or by its content provider while it is written), every one a table - connection tables (local
+    address, peer address [, host name / MAC]), address lists, mixed rows - over the same pools of originals, with
+    an occasional unnamed clean_content call in between"""
+    case = draw(_pools(site=2))
+    weights = ["ip"] * 5 + ["host"] * 2 + ["mac"] * 2 + (["kw"] if case["pools"]["kw"] else [])
+    classes = st.one_of(st.sampled_from(weights), st.just("ip"))
+    extra = st.sampled_from(["host", "host", "mac", "ip"])
+    idx = st.integers(0, 15)
+    ops = []
+    for _ in range(draw(st.integers(1, max_ops))):
+        kind = draw(st.sampled_from(["file", "file", "file", "write", "write", "write", "list", "str"]))
+        if kind in ("list", "str"):
+            lines = [draw(_line(classes)) for _ in range(1 if kind == "str" else draw(st.integers(1, 3)))]
+            ops.append({"op": kind, "no_obf": [], "lines": lines})
+            continue
+        layout = draw(st.sampled_from(["conn", "conn", "conn", "list", "mixed"]))
+        nrows = draw(st.integers(1, 5))
+        if layout == "conn":
+            nrows += draw(st.integers(0, 3))
+            local, lport, first = draw(idx), draw(idx), draw(idx)
+            sweep, local_first = draw(st.integers(0, 2)) > 0, draw(st.integers(0, 3)) > 0
+            with_extra = draw(st.integers(0, 2)) == 0
+            lines = []
+            for r in range(nrows):
+                cols = [["ip", local, 0, lport, ""], ["ip", first + r if sweep else draw(idx), 0, draw(idx), ""]]
+                if not local_first:
+                    cols.reverse()
+                if with_extra:
+                    cols.append([draw(extra), draw(idx), draw(st.integers(0, 17)), draw(idx), ""])
+                lines.append({"pre": draw(st.sampled_from(["", "G ", "LMNOP  ", " HOP IJ="])), "toks": cols})
+        elif layout == "list":
+            cls, first = draw(st.sampled_from(["ip", "ip", "host", "mac"])), draw(idx)
+            lines = [{"pre": "", "toks": [[cls, first + r, draw(st.integers(0, 17)), draw(idx), draw(st.sampled_from(FILLERS))]]}
+                     for r in range(nrows)]
+        else:
+            lines = [draw(_line(classes)) for _ in range(nrows)]
+        no_obf = draw(st.one_of(st.just([]), st.just([]), st.just([]), st.just([]), st.just([]), st.lists(
+            st.sampled_from(["ip", "hostname", "mac", "keyword"]), min_size=1, max_size=2, unique=True)))
+        op = {"op": kind, "no_obf": no_obf, "lines": lines, "rows": True}
+        op["name"] = draw(st.sampled_from(SPEC_NAMES))
+        ops.append(op)
+    case["ops"] = ops
+    return case
+
+
+def strat_specfiles(tier):
+    return _spec_history(8 if tier == "quick" else 16)
+
+
 def strat_compete(tier):
     return _compete_history(8 if tier == "quick" else 16)
 
@@ -741,6 +1001,27 @@ def selftest():
         "keyword0", "0123456789ab.example.com"]
     assert tmpl.fullmatch(cleaned.replace("LMNOP", "LMNO")) is None
     assert tmpl.fullmatch("G 10.230.230.2:80 10.230.230.1 extra " + cleaned[30:]) is None
+    # table rows: a gap of 8 blanks per token behind every token, read back whatever its length has become
+    text, tmpl, occ = render_line({"pre": "G ", "toks": [["ip", 0, 0, 11, ""], ["host", 2, 17, 0, "LMNOP"]]}, pools, rows=True)
+    assert text == "G 1.2.3.4:80" + " " * 16 + "H=db.d.io" + " " * 16 + "LMNOP", repr(text)
+    assert list(tmpl.fullmatch(text).groups()) == ["1.2.3.4", "db.d.io"]
+    assert list(tmpl.fullmatch("G 10.230.230.1:80" + " " * 11 + "H=host2.example.com" + " " * 16 + "LMNOP").groups()) == [
+        "10.230.230.1", "host2.example.com"]
+    assert tmpl.fullmatch("G 10.230.230.1:80H=host2.example.com" + " " * 16 + "LMNOP") is None
+    assert all(" " not in d for v in RD_ROW.values() for d in v)
+    assert op_target({"op": "file", "name": "insights_commands/netstat_-neopa"}, 3) == ("insights_commands/netstat_-neopa", True)
+    assert op_target({"op": "write", "name": "insights_commands/ss_-tupna"}, 3) == ("insights_commands/ss_-tupna", False)
+    assert op_target({"op": "file"}, 3) == ("spec_3", False) and op_target({"op": "list", "name": "netstat_-neopa"}, 0) == (None, False)
+    # the excluded class of the width mode: the longer address is handled first, equal lengths from left to right
+    ips = lambda *a: [("ip", x) for x in a]
+    assert width_hazard(ips("192.168.100.17", "10.230.230.1"), {"192.168.100.17": "10.230.230.1", "10.230.230.1": "10.230.230.3"})
+    assert width_hazard(ips("10.230.230.1", "192.168.100.17"), {"192.168.100.17": "10.230.230.12", "10.230.230.1": "10.230.230.3"})
+    assert not width_hazard(ips("1.2.3.4", "10.230.230.1"), {"1.2.3.4": "10.230.230.1", "10.230.230.1": "10.230.230.3"})
+    assert width_hazard(ips("10.230.230.2", "10.230.230.1"), {"10.230.230.2": "10.230.230.1", "10.230.230.1": "10.230.230.2"})
+    assert not width_hazard(ips("10.230.230.1", "10.230.230.2"), {"10.230.230.2": "10.230.230.1", "10.230.230.1": "10.230.230.1"})
+    assert not width_hazard(ips("10.230.230.1", "10.230.230.1", "9.9.9.9"), {"10.230.230.1": "10.230.230.1", "9.9.9.9": "10.230.230.2"})
+    assert width_hazard(ips("127.0.0.1", "27.0.0.1"), {"27.0.0.1": "10.230.230.1"})
+    assert not width_hazard(ips("127.0.0.1", "127.0.0.1", "8.8.8.8"), {"8.8.8.8": "10.230.230.1"})
     for name, bad in [("host", True), ("ost2", True), ("t12", True), ("com", True), ("xam", True), ("key", True),
                       ("d0", True), ("ab", True), ("a-b", True), ("12", True), ("web01", False), ("db", True), ("dbz", False),
                       ("hostz", False), ("node", False), ("_srv", False), ("x1", False), ("keys", False)]:
@@ -827,8 +1108,10 @@ def strat_sysname(tier):
 
 SUBS = [
     Sub("sysname", check_sysname, strategy=strat_sysname, quick=100, thorough=1000, workers_quick=2, workers_thorough=4),
-    Sub("history", check_history, strategy=strat_history, quick=520, thorough=3500, workers_quick=4,
-        workers_thorough=16, budget_quick=40, budget_thorough=480),
+    Sub("history", check_history, strategy=strat_history, quick=470, thorough=3500, workers_quick=4,
+        workers_thorough=16, budget_quick=36, budget_thorough=420),
+    Sub("specfiles", check_history, strategy=strat_specfiles, quick=150, thorough=1500, workers_quick=4,
+        workers_thorough=16, budget_quick=12, budget_thorough=120),
     Sub("compete", check_history, strategy=strat_compete, quick=160, thorough=1500, workers_quick=4,
         workers_thorough=16, budget_quick=12, budget_thorough=120),
 ]
@@ -857,6 +1140,28 @@ REGRESSIONS = [
         {"op": "str", "no_obf": [], "lines": [_ln("G ", ["ip", 0, 0, 0, " GH "])]},
         {"op": "str", "no_obf": [], "lines": [_ln("", ["ip", 0, 0, 0, " "], ["ip", 1, 0, 0, ""])]},
         {"op": "str", "no_obf": [], "lines": [_ln("", ["ip", 1, 0, 0, ""])]}]}),
+    # round 5: the documented width mode on a table row (blanks behind the addresses move, tokens are read back) and the
+    # same rows under a name that is not a width spec, through both callers
+    Reg("netstat-rows-width-mode", "specfiles", {"fqdn": "web01.corp.acme.org", "pools": dict(
+        _P1, ip=["192.168.100.17", "10.230.230.1", "172.16.5.9", "1.1.1.1"]), "ops": [
+        {"op": op_, "name": name_, "rows": True, "no_obf": [], "lines": [
+            _ln("G ", ["ip", 3, 0, 11, ""], ["ip", 0, 0, 11, ""], ["host", 2, 0, 0, "LMNOP"]),
+            _ln("G ", ["ip", 0, 0, 11, ""], ["ip", 2, 0, 11, ""], ["mac", 0, 0, 0, ""]),
+            _ln("G ", ["ip", 1, 0, 11, ""], ["ip", 3, 0, 11, ""])]}
+        for op_, name_ in (("file", "insights_commands/netstat_-neopa"), ("write", "insights_commands/netstat_-neopa"),
+                           ("write", "insights_commands/ss_-tupna"), ("file", "insights_commands/ss_-tupna"))]}),
+    # the excluded class of the width mode is skipped under netstat_-neopa (candidate known finding, see EXCLUDED)
+    Reg("netstat-row-original-inside-substitute-skipped", "specfiles", {"fqdn": "web01.corp.acme.org", "pools": dict(
+        _P1, ip=["192.168.100.17", "10.230.230.1", "172.16.5.9"]), "ops": [
+        {"op": "file", "name": "insights_commands/netstat_-neopa", "rows": True, "no_obf": [], "lines": [
+            _ln("G ", ["ip", 0, 0, 11, ""], ["ip", 1, 0, 11, ""]), _ln("G ", ["ip", 0, 0, 11, ""], ["ip", 2, 0, 11, ""])]}]}),
+    # pinned known finding C09-width-chained-replace (class skipped under names ending in netstat_-neopa: width_hazard)
+    Reg("netstat-row-original-equals-substitute-written-before", "specfiles", {
+        "fqdn": "web01.corp.acme.org", "allow_width_hazard": True,
+        "pools": dict(_P1, ip=["192.168.100.17", "10.230.230.1", "172.16.5.9"]), "ops": [
+            {"op": "file", "name": "insights_commands/netstat_-neopa", "rows": True, "no_obf": [], "lines": [
+                _ln("G ", ["ip", 0, 0, 11, ""], ["ip", 1, 0, 11, ""]), _ln("G ", ["ip", 0, 0, 11, ""], ["ip", 2, 0, 11, ""])]}]},
+        expect="known", finding="C09-width-chained-replace"),
     # pinned known finding C09-short-name-substring (class excluded from generation: unsafe_short)
     Reg("short-name-inside-issued-substitute", "history", {
         "fqdn": "host2.corp.acme.org", "allow_unsafe_short": True,
